@@ -63,9 +63,9 @@ def knot(a):
 
 PROBE = ('print null; print isnull(null) typeof(null); print (null or false) (null and true) (not null); print vn vu; '
          'print isnull(vn) isnull(vu) typeof(vn) typeof(vu); print tn.at(0) rr@3; print vt vf tt.at(0) tf.at(0) rr@1 rr@2; '
-         'print ft() ff() fn() fu() fnn() foff(0) foff(1);')
+         'print ft() ff() fn() fu() fnn() foff(0) foff(1); print fe isnull(fe) typeof(fe);')
 PROBE_EXPECT = ("null\nTRUEundefined\nnullnullnull\nnullnull\nTRUETRUEbooleanundefined\nnullnull\n"
-                "TRUEFALSETRUEFALSETRUEFALSE\nTRUEFALSEnullnullnullnullTRUE\n")
+                "TRUEFALSETRUEFALSETRUEFALSE\nTRUEFALSEnullnullnullnullTRUE\nnullTRUEboolean\n")
 
 # relational: (type family, non-null atoms, null atoms)
 REL = {
